@@ -6,4 +6,5 @@ export GOFLAGS=-mod=mod GOPROXY=off GOSUMDB=off GOTOOLCHAIN=local CGO_ENABLED=1
 mkdir -p bin evidence
 (cd harness && go build -tags verif -o ../bin/vcheck ./cmd/vcheck)
 (cd harness && go build -race -tags verif -o ../bin/vcheck-race ./cmd/vcheck) || echo "race build failed (checks that need it will report BROKEN-CHECK)"
+(cd harness && go build -o ../bin/fusermount3 ./cmd/fusermount3) || echo "fusermount3 shim build failed (driver B cases will count kmount_unavailable)"
 echo setup ok
